@@ -1,5 +1,8 @@
 /-
   C07 — The sequencer delivers every file event once, in order, at the right time.
+  Theorems about the row builder of Model/Seq.lean: `sortEvents` (MidiTrackRow::sortEvents) delivers every event of a
+  tick exactly once, with controllers / program changes in front of the note-ons and in file order inside each class;
+  variable-length quantities never move the cursor backwards; End-of-Track alone at its tick takes the preceding row's place.
 -/
 import OpnVerif.Model.Seq
 
@@ -15,5 +18,158 @@ theorem readVarLen_le : ∀ (bs : Bytes) (acc : Nat), (readVarLen bs acc).2.leng
     split
     · exact Nat.le_succ_of_le (readVarLen_le rest _)
     · simp
+
+/-! ## every event of a row is delivered exactly once -/
+
+theorem filter_split (p : α → Bool) (l : List α) : (l.filter p ++ l.filter (fun x => !p x)).Perm l :=
+  List.filter_append_perm p l
+
+/-- the inner loop only distributes the note-offs over "kept in front" and "moved behind" -/
+theorem siftOffs_perm (e : Ev) (wasOn : Bool) : ∀ (offs : List Ev) (cnt : Nat) (m : Bool),
+    ((siftOffs e wasOn offs cnt m).1 ++ (siftOffs e wasOn offs cnt m).2.1).Perm offs
+  | [], _, _ => by simp [siftOffs]
+  | j :: js, cnt, m => by
+    unfold siftOffs
+    split
+    · split
+      · have ih := siftOffs_perm e wasOn js cnt false
+        simp only
+        exact (List.perm_middle.trans (List.Perm.cons j ih))
+      · have ih := siftOffs_perm e wasOn js (cnt + 1) m
+        simp only [List.cons_append]
+        exact List.Perm.cons j ih
+    · have ih := siftOffs_perm e wasOn js cnt m
+      simp only [List.cons_append]
+      exact List.Perm.cons j ih
+
+theorem siftAll_perm (states : List Nat) : ∀ (other offs moved : List Ev) (marks : List Nat),
+    ((siftAll states other offs moved marks).1 ++ (siftAll states other offs moved marks).2.1).Perm (offs ++ moved)
+  | [], offs, moved, marks => by simp [siftAll]
+  | e :: es, offs, moved, marks => by
+    unfold siftAll
+    split
+    · simp only
+      refine (siftAll_perm states es _ _ _).trans ?_
+      have hp := siftOffs_perm e (states.contains (noteIdx e)) offs 0 true
+      have : ((siftOffs e (states.contains (noteIdx e)) offs 0 true).1 ++ (moved ++ (siftOffs e (states.contains (noteIdx e)) offs 0 true).2.1)).Perm
+          (((siftOffs e (states.contains (noteIdx e)) offs 0 true).1 ++ (siftOffs e (states.contains (noteIdx e)) offs 0 true).2.1) ++ moved) := by
+        rw [List.append_assoc]
+        exact List.Perm.append_left _ List.perm_append_comm
+      exact this.trans (List.Perm.append_right moved hp)
+    · exact siftAll_perm states es offs moved marks
+
+/-- five-way partition by a cascade of predicates -/
+theorem part5 {α} (p1 p2 p3 p4 : α → Bool) (l : List α) :
+    (l.filter p1 ++ (l.filter (fun x => !p1 x && p2 x) ++ (l.filter (fun x => !p1 x && !p2 x && p3 x) ++
+      (l.filter (fun x => !p1 x && !p2 x && !p3 x && p4 x) ++ l.filter (fun x => !p1 x && !p2 x && !p3 x && !p4 x))))).Perm l := by
+  induction l with
+  | nil => simp
+  | cons e es ih =>
+    have m1 : ∀ (a b : List α), (a ++ (e :: b)).Perm (e :: (a ++ b)) := fun a b => List.perm_middle
+    cases h1 : p1 e
+    · cases h2 : p2 e
+      · cases h3 : p3 e
+        · cases h4 : p4 e
+          · simp only [List.filter_cons, h1, h2, h3, h4, Bool.not_false, Bool.and_self, Bool.and_true, Bool.false_eq_true, if_false, if_true, Bool.and_false]
+            rw [← List.append_assoc, ← List.append_assoc, ← List.append_assoc]
+            refine (m1 _ _).trans (List.Perm.cons e ?_)
+            rw [List.append_assoc, List.append_assoc, List.append_assoc]; exact ih
+          · simp only [List.filter_cons, h1, h2, h3, h4, Bool.not_false, Bool.not_true, Bool.and_self, Bool.and_true, Bool.false_eq_true, if_false, if_true, Bool.and_false]
+            rw [← List.append_assoc, ← List.append_assoc]
+            refine (m1 _ _).trans (List.Perm.cons e ?_)
+            rw [List.append_assoc, List.append_assoc]; exact ih
+        · simp only [List.filter_cons, h1, h2, h3, Bool.not_false, Bool.not_true, Bool.and_self, Bool.and_true, Bool.false_eq_true, if_false, if_true, Bool.and_false, Bool.false_and]
+          rw [← List.append_assoc]
+          refine (m1 _ _).trans (List.Perm.cons e ?_)
+          rw [List.append_assoc]; exact ih
+      · simp only [List.filter_cons, h1, h2, Bool.not_false, Bool.not_true, Bool.and_self, Bool.and_true, Bool.false_eq_true, if_false, if_true, Bool.and_false, Bool.false_and]
+        exact (m1 _ _).trans (List.Perm.cons e ih)
+    · simp only [List.filter_cons, h1, Bool.not_true, Bool.false_and, Bool.false_eq_true, if_false, if_true, List.cons_append]
+      exact List.Perm.cons e ih
+
+/-- **each once**: the sorted row is a permutation of the events of the tick (nothing dropped, nothing duplicated),
+    for every row and every note-state cache -/
+theorem sortEvents_perm (events : List Ev) (states : List Nat) : (sortEvents events states).1.Perm events := by
+  unfold sortEvents
+  simp only
+  have hs := siftAll_perm states
+    (events.filter (fun e => e.type != tNoteOff && !isSysExClass e && !isCtlClass e && !isMetaClass e))
+    (events.filter (·.type == tNoteOff)) [] []
+  simp only [List.append_nil] at hs
+  have hp := part5 (fun e : Ev => e.type == tNoteOff) isSysExClass isCtlClass isMetaClass events
+  refine List.Perm.trans ?_ hp
+  generalize (siftAll states _ (events.filter (·.type == tNoteOff)) [] []).1 = K at hs ⊢
+  generalize (siftAll states _ (events.filter (·.type == tNoteOff)) [] []).2.1 = M at hs ⊢
+  have h1 : ∀ (SX CT ME OT : List Ev), (SX ++ K ++ ME ++ CT ++ OT ++ M).Perm ((K ++ M) ++ (SX ++ (CT ++ (ME ++ OT)))) := by
+    intro SX CT ME OT
+    apply List.perm_iff_count.mpr
+    intro a
+    simp only [List.count_append]
+    omega
+  exact (h1 _ _ _ _).trans (List.Perm.append_right _ hs)
+
+/-! ## order inside a tick -/
+
+/-- the note-ons of a row all lie in the last block of the sorted row (behind every controller / program change / bend) -/
+theorem noteOn_not_ctl (e : Ev) (h : e.type = tNoteOn) : isCtlClass e = false ∧ isSysExClass e = false ∧ (e.type == tNoteOff) = false := by
+  simp [isCtlClass, isSysExClass, h, tNoteOn, tCtrl, tPatch, tWheel, tChanAT, tSysEx, tSysEx2, tNoteOff]
+
+/-- the kept and the moved note-offs are note-offs of the row -/
+theorem sift_members (events : List Ev) (states : List Nat) (e : Ev)
+    (h : e ∈ (siftAll states (events.filter (fun e => e.type != tNoteOff && !isSysExClass e && !isCtlClass e && !isMetaClass e))
+                (events.filter (·.type == tNoteOff)) [] []).1 ∨
+         e ∈ (siftAll states (events.filter (fun e => e.type != tNoteOff && !isSysExClass e && !isCtlClass e && !isMetaClass e))
+                (events.filter (·.type == tNoteOff)) [] []).2.1) : e.type = tNoteOff := by
+  have hperm := siftAll_perm states
+    (events.filter (fun e => e.type != tNoteOff && !isSysExClass e && !isCtlClass e && !isMetaClass e)) (events.filter (·.type == tNoteOff)) [] []
+  have hmem : e ∈ (events.filter (·.type == tNoteOff)) ++ [] := hperm.subset (by
+    rcases h with h | h
+    · exact List.mem_append_left _ h
+    · exact List.mem_append_right _ h)
+  simp only [List.append_nil, List.mem_filter] at hmem
+  simpa using hmem.2
+
+/-- **controllers and program changes before note-ons**: the sorted row is `front ++ rest` where `front` (SysEx, kept
+    note-offs, markers, then all controller / program / bend / channel-pressure events) holds no note-on and `rest`
+    (everything else in file order, then the note-offs of zero-length notes) holds no controller-class event -/
+theorem sortEvents_ctl_before_on (events : List Ev) (states : List Nat) :
+    ∃ front rest, (sortEvents events states).1 = front ++ rest ∧ (∀ e ∈ front, e.type ≠ tNoteOn) ∧ (∀ e ∈ rest, isCtlClass e = false) := by
+  unfold sortEvents
+  simp only
+  generalize hK : (siftAll states _ (events.filter (·.type == tNoteOff)) [] []) = R
+  have hmem := sift_members events states
+  rw [hK] at hmem
+  refine ⟨events.filter (fun e => e.type != tNoteOff && isSysExClass e) ++ R.1 ++
+      events.filter (fun e => e.type != tNoteOff && !isSysExClass e && !isCtlClass e && isMetaClass e) ++
+      events.filter (fun e => e.type != tNoteOff && !isSysExClass e && isCtlClass e),
+    events.filter (fun e => e.type != tNoteOff && !isSysExClass e && !isCtlClass e && !isMetaClass e) ++ R.2.1, ?_, ?_, ?_⟩
+  · simp only [List.append_assoc]
+  · intro e he hon
+    obtain ⟨hc, hs, _⟩ := noteOn_not_ctl e hon
+    simp only [List.mem_append, List.mem_filter] at he
+    rcases he with ((h | h) | h) | h
+    · simp [hs] at h
+    · have := hmem e (Or.inl h); rw [hon] at this; exact absurd this (by decide)
+    · have : isMetaClass e = false := by simp [isMetaClass, hon, tNoteOn, tSpecial]
+      simp [this] at h
+    · simp [hc] at h
+  · intro e he
+    simp only [List.mem_append, List.mem_filter] at he
+    rcases he with h | h
+    · have := h.2
+      simp only [Bool.and_eq_true, Bool.not_eq_true'] at this
+      exact this.1.2
+    · have := hmem e (Or.inr h)
+      simp [isCtlClass, this, tNoteOff, tCtrl, tPatch, tWheel, tChanAT]
+
+/-- file order is kept inside the controller class (a filter never reorders) -/
+theorem ctl_order_kept (events : List Ev) :
+    (events.filter (fun e => e.type != tNoteOff && !isSysExClass e && isCtlClass e)).Sublist events := List.filter_sublist
+
+/-- an End-of-Track standing alone at its tick takes the place of the preceding row: that row's delay is cleared, so the
+    track's last real event and the End-of-Track are due at the same moment (trailing silence is skipped) -/
+theorem clearLastDelay_spec (rows : List Row) (r : Row) :
+    clearLastDelay (rows ++ [r]) = rows ++ [{ r with delay := 0, timeDelay := 0 }] := by
+  simp [clearLastDelay]
 
 end Opn.C07
